@@ -1,3 +1,4 @@
+import re
 """PSC — panic-site census and discharge (DESIGN §4.5)."""
 from mirlib import *
 from rules.tables import _memo
@@ -166,10 +167,20 @@ def unref(v):
 LEN_FNS = ('core::slice::<impl [T]>::len', 'alloc::vec::Vec::<T, A>::len', 'alloc::string::String::len', 'core::str::<impl str>::len')
 
 
+_INT_FROM = re.compile(r'From<(u8|u16|u32|u64|usize|i8|i16|i32|i64|isize|bool)>(>| for (u8|u16|u32|u64|u128|usize|i16|i32|i64|i128|isize))')
+
+
 def strip(v):
     """normal form for comparisons: casts/borrows removed, all spellings of a length unified"""
-    while isinstance(v, tuple) and v and v[0] in ('cast', 'ref'):
-        v = v[1]
+    while isinstance(v, tuple) and v:
+        if v[0] in ('cast', 'ref'):
+            v = v[1]
+            continue
+        # `u32::from(x)`, `usize::from(x)`, `x.into()` between integer types: a lossless widening, the value itself
+        if v[0] == 'call' and len(v[2]) == 1 and _INT_FROM.search(v[1]):
+            v = v[2][0]
+            continue
+        break
     if isinstance(v, tuple) and v:
         if v[0] == 'call' and v[1] in LEN_FNS and len(v[2]) == 1:
             return ('len', unref(v[2][0]))
